@@ -1,6 +1,6 @@
 (* Properties/C08.v — !notnew (and command-line overrides) can change but never create paths. *)
 From AY Require Import Model.Merge Proofs.NotNew Proofs.FactsOk Model.Cmdline Proofs.CmdlineLemmas Model.Loader Proofs.MergePlain Proofs.Override Proofs.OverrideLoad.
-From AY Require Import Spec.Update Spec.UpdateNN Proofs.UpdateNNLemmas Proofs.MergeNotNew.
+From AY Require Import Spec.Update Spec.UpdateNN Proofs.UpdateNNLemmas Proofs.MergeNotNew Proofs.MergeGen.
 
 (* merging a key that does not exist yet, offered by a node that does not allow new paths, is a MergeError —
    for every older container (mapping or list; for a list: every index that is not an existing one), every rec, every depth *)
@@ -68,6 +68,18 @@ Theorem C08_notnew_is_update_without_new_paths : forall e c d0 rest kv,
   end.
 Proof. exact flatten_notnew_last. Qed.
 Print Assumptions C08_notnew_is_update_without_new_paths.
+
+(* The same for !notnew stages ANYWHERE in the sequence: every stage after the first is either a mapping document free of
+   priority / delete / new tags (NewP: any safety marks and metadata, on any nodes) or a tag-free !notnew overlay; the model of
+   Builder.flatten is the fold of upd / upd_nn over the stages - each !notnew stage is checked against the config built by
+   all stages before it, whatever follows. *)
+Theorem C08_notnew_stages_anywhere : forall e s0 sts, NewP s0 -> is_dictk s0 = true -> Forall gok sts ->
+  match fold_left (fun acc st => do a <- acc; gstep a st) sts (Ok (erase s0)) with
+  | Ok r => exists n, flatten e (s0 :: map gnode sts) = Ok n /\ erase n = r
+  | Err _ _ => exists q, flatten e (s0 :: map gnode sts) = Err EMerge q
+  end.
+Proof. exact flatten_mixed. Qed.
+Print Assumptions C08_notnew_stages_anywhere.
 
 (* ... afterwards no path exists that did not exist before: every path of the result is a path of the config built so far *)
 Theorem C08_no_new_path : forall d a r, upd_nn a d = Ok r -> forall q, ppath r q = true -> ppath a q = true.
